@@ -693,6 +693,7 @@ func errStage(err error) string {
 
 func runC01(c *mon.Ctx) {
 	w := NewWorld(BaseTime(c.Seed))
+	w.Pool = &SPPool{}
 	trs := c01Transformers()
 	run := func(class string, k int, build func(a *atk) string) {
 		cs := c.Begin(class, k)
